@@ -950,6 +950,16 @@ class RTCSctpTransport(AsyncIOEventEmitter):
 
         return True
 
+    def _sorted_misordered(self) -> list[int]:
+        """
+        The misordered TSNs in serial number order, which is not the
+        numerical order when they straddle the wraparound.
+        """
+        return sorted(
+            self._sack_misordered,
+            key=lambda tsn: (tsn - self._last_received_tsn) % SCTP_TSN_MODULO,
+        )
+
     def _mark_received(self, tsn: int) -> bool:
         """
         Mark an incoming data TSN as received.
@@ -961,7 +971,7 @@ class RTCSctpTransport(AsyncIOEventEmitter):
 
         # consolidate misordered entries
         self._sack_misordered.add(tsn)
-        for tsn in sorted(self._sack_misordered):
+        for tsn in self._sorted_misordered():
             if tsn == tsn_plus_one(self._last_received_tsn):
                 self._last_received_tsn = tsn
             else:
@@ -1184,7 +1194,7 @@ class RTCSctpTransport(AsyncIOEventEmitter):
         # advance cumulative TSN
         self._last_received_tsn = chunk.cumulative_tsn
         self._sack_misordered = set(filter(is_obsolete, self._sack_misordered))
-        for tsn in sorted(self._sack_misordered):
+        for tsn in self._sorted_misordered():
             if tsn == tsn_plus_one(self._last_received_tsn):
                 self._last_received_tsn = tsn
             else:
@@ -1453,7 +1463,7 @@ class RTCSctpTransport(AsyncIOEventEmitter):
         """
         gaps: list[list[int]] = []
         gap_next = None
-        for tsn in sorted(self._sack_misordered):
+        for tsn in self._sorted_misordered():
             pos = (tsn - self._last_received_tsn) % SCTP_TSN_MODULO
             if pos > 0xFFFF:
                 # too far ahead to be reported in a gap block
